@@ -18,6 +18,9 @@ pub enum Status {
     Timeout,
     /// killed because the output exceeded the cap (deterministic runaway signal)
     OutputCap,
+    /// killed because it slept without using any CPU time for several seconds although all of its input had been
+    /// written (or was closed) before it started: it waits for something that cannot come (deterministic deadlock signal)
+    Blocked,
     SpawnError(String),
 }
 
@@ -145,6 +148,7 @@ pub fn run_bin_limited(bin: &str, source: &[u8], stdin: Stdin, interpreted: bool
     }
     let status;
     let deadline = t0 + Duration::from_millis(timeout_ms);
+    let (mut last_probe_s, mut idle_probes, mut last_ticks) = (0u64, 0u32, u64::MAX);
     loop {
         match child.try_wait() {
             Ok(Some(st)) => {
@@ -175,6 +179,26 @@ pub fn run_bin_limited(bin: &str, source: &[u8], stdin: Stdin, interpreted: bool
             status = Status::Timeout;
             break;
         }
+        // a child that has been asleep (state S) for 5 s without a tick of CPU time: its input is complete, nobody
+        // will ever wake it.  (A busy or starved child is in state R / accumulates CPU time and is left to the watchdog.)
+        let el_ms = t0.elapsed().as_millis() as u64;
+        if el_ms >= 6_000 && el_ms / 1000 != last_probe_s {
+            last_probe_s = el_ms / 1000;
+            if let Some((state, ticks)) = proc_stat(child.id()) {
+                if state == 'S' && ticks == last_ticks {
+                    idle_probes += 1;
+                } else {
+                    idle_probes = 0;
+                }
+                last_ticks = ticks;
+                if idle_probes >= 5 {
+                    let _ = child.kill();
+                    let _ = child.wait();
+                    status = Status::Blocked;
+                    break;
+                }
+            }
+        }
         let el = t0.elapsed().as_millis();
         std::thread::sleep(Duration::from_micros(if el < 30 { 500 } else if el < 500 { 3000 } else { 20000 }));
     }
@@ -186,6 +210,18 @@ pub fn run_bin_limited(bin: &str, source: &[u8], stdin: Stdin, interpreted: bool
     let stderr = std::fs::read(&err_path).unwrap_or_default();
     cleanup(&[&src_path, &out_path, &err_path]);
     CliOut { stdout, stderr, status, wall_ms }
+}
+
+/// (state, utime + stime in clock ticks) of a process, from /proc/<pid>/stat
+fn proc_stat(pid: u32) -> Option<(char, u64)> {
+    let txt = std::fs::read_to_string(format!("/proc/{}/stat", pid)).ok()?;
+    // the command name is in parentheses and may contain spaces: fields start after the last ')'
+    let rest = &txt[txt.rfind(')')? + 1..];
+    let f: Vec<&str> = rest.split_whitespace().collect();
+    let state = f.first()?.chars().next()?;
+    let ut: u64 = f.get(11)?.parse().ok()?;
+    let st: u64 = f.get(12)?.parse().ok()?;
+    Some((state, ut + st))
 }
 
 pub fn cli_available() -> bool {
